@@ -1394,7 +1394,7 @@ PROPS['C01'] = dict(
                              'Flac.C01.lpc_restores', 'Flac.C01.fixed_restores', 'Flac.C01.wasted_restores', 'Flac.C01.recorrelate_stereo',
                              'Flac.C01.lossless_independent', 'Flac.C01.lossless_stereo',
                              'Flac.C01.declared_total_decodes_all', 'Flac.C01.stream_of_frames_lossless', 'Flac.C14.interrupted_decodes_complete_frames',
-                             'Flac.C01.file_head_roundtrip', 'Flac.C01.file_lossless', 'Flac.C07.loop_refines'],
+                             'Flac.file_head_roundtrip', 'Flac.C01.file_lossless', 'Flac.C07.loop_refines'],
     components=[EncFrame('roundtrip'), RoundTripFile()],
     rule='encframe: every length 1..48 (quick) / 1..96 (thorough) x 11 signal shapes x mono/stereo x 6 option sets, plus random '
          '(channels 1-8, depth in the subset codes, lengths around powers of two and block-size codes, all option dimensions); every frame the real '
@@ -1603,8 +1603,8 @@ PROPS['C04'] = dict(
 )
 
 PROPS['C05'] = dict(
-    module='FlacModel.Props.C05b',
-    theorems=['Flac.C05.accepted_frame_is_wellformed', 'Flac.C05.single_bit_flip_rejected', 'Flac.C05.accepted_crc16', 'Flac.C05.unstep_step', 'Flac.C05.step16_inj', 'Flac.C05.step8_inj', 'Flac.C05.crc16_single_bit', 'Flac.C05.crc8_single_bit',
+    module='FlacModel.Props.C05c',
+    theorems=['Flac.C05.accepted_frame_is_wellformed', 'Flac.C05.single_bit_flip_rejected', 'Flac.C05.accepted_crc16', 'Flac.C05.declared_total_truncated', 'Flac.C05.unstep_step', 'Flac.C05.step16_inj', 'Flac.C05.step8_inj', 'Flac.C05.crc16_single_bit', 'Flac.C05.crc8_single_bit',
               'Flac.C05.flip_same_extent_rejected'],
     components=[InvalidStreams('reject'), Damage('detect')],
     rule='every single-bit flip in the audio frames and every truncation point of 8 (quick) / 40 (thorough) small valid files (exhaustive per file, about 1200 flips and 150 cuts each): '
@@ -1615,7 +1615,9 @@ PROPS['C05'] = dict(
           'context - legal header codes consistent with their fields and with STREAMINFO, legal subframe types/orders/precisions/shifts/partition layouts, every value inside its field, and BOTH stored '
           'checksums equal to the checksums of the content (crc8_pins/crc16_pins); so reserved or illegal codes, STREAMINFO contradictions and wrong checksums are all rejected. '
           'single_bit_flip_rejected: for the checksum code of crc.rs (tied to the bit-serial CRC on every message by crc16_eq_spec) and frames of any length, a frame that differs in exactly one bit from an '
-          'accepted frame is never accepted with the same extent, in either profile. Bit-serial level: both LFSR steps are bijections of the register and separate the two values of the input bit '
+          'accepted frame is never accepted with the same extent, in either profile. declared_total_truncated: the readers\' frame loop over a stream with a declared total that is cut anywhere inside '
+          'a frame delivers exactly the samples of the frames complete before the cut (a whole-frame prefix of the original audio) and then ends in an error (end of data), never cleanly '
+          '(undeclared total: C14.interrupted_decodes_complete_frames). Bit-serial level: both LFSR steps are bijections of the register and separate the two values of the input bit '
           '(algebraic, any width), hence crc16_single_bit / crc8_single_bit / flip_same_extent_rejected.',
     note='A flip that changes the frame extent (e.g. in the block-size code) moves the checksum position; the exhaustive flip/truncation runs against the independent L0 decoder cover those, and '
          'the whole-frame-prefix clause for files. The reserved bit after the sample-size code is skipped by the crate (the model serializer stores it), so it is not among the rejected codes.',
@@ -1650,9 +1652,9 @@ PROPS['C17'] = dict(
 )
 
 PROPS['C14'] = dict(
-    module='FlacModel.Props.C14',
+    module='FlacModel.Props.C14b',
     theorems=['Flac.C14.prefix_decodes_complete_frames', 'Flac.decodeFrame_ext', 'Flac.decodeFrame_cut', 'Flac.local_readHeaderFields', 'Flac.local_decSubframes',
-              'Flac.C14.loc_of_decodes', 'Flac.C14.truncated_of_cut', 'Flac.C14.interrupted_decodes_complete_frames'],
+              'Flac.C14.loc_of_decodes', 'Flac.C14.truncated_of_cut', 'Flac.C14.interrupted_decodes_complete_frames', 'Flac.C14.interrupted_file_decodes', 'Flac.file_head_roundtrip'],
     components=[CrashPrefix()],
     rule='60 (quick) / 3000 (thorough) encodes stopped before finalize (byte/sample/channel writer, declared and undeclared totals, every seek-table policy, with and without padding); '
          'the bytes that reached the stream are cut at EVERY byte (two thirds of the cases) or after every underlying write call, and each prefix is decoded by the sample or channel '
